@@ -25,7 +25,12 @@ ASSUMPTIONS = [
     "a quoted string does not contain its own delimiter unescaped; the quoted text 'none' is not used as a string",
     "bare strings do not start with '{', '(' or a quote (those are references, functions, expressions by the syntax)",
     "number literals are the decimal/scientific forms ([+-]digits[.digits][e[+-]digits]); int()/float() extras "
-    "(underscores, inf, nan, surrounding blanks) and numpy truncation of float literals in int arrays are outside the model",
+    "(underscores, inf, nan, surrounding blanks) are outside the model; float literals in the text of an int array are "
+    "refused (repaired in 4c14a83), in JSON cells of a table int column numpy still truncates them (outside the model)",
+    "correspondence is demanded only inside the property's domain: for texts that were not generated in-domain "
+    "(corpus, malformed list, single-character mutations) a difference between real code and model is a broken tie only if "
+    "the independent regex recogniser in_grammar() accepts the text; otherwise it is counted "
+    "(mutated.out_of_domain_disagreement) and noted",
     "array elements are literals of the declared type (JSON syntax); |int| < 2^62 inside arrays; table cells are plain "
     "words or simply quoted; tables have no children of their own",
     "units are linear units of the unit table (no temperature/logarithmic units); their magnitudes and dimensions "
